@@ -13,12 +13,16 @@ import (
 	"path/filepath"
 	"regexp"
 	"strings"
+	"sync/atomic"
 	"syscall"
 	"time"
 
 	"verif/internal/ev"
 	"verif/internal/fc"
+	"verif/internal/pin"
 )
+
+var pinNext atomic.Int64 // spreads pinned children over the CPUs
 
 // Deadline for a child whose render takes milliseconds. Only reached when
 // something keeps the child's runtime from declaring the deadlock itself; its
@@ -48,6 +52,8 @@ type childStatus struct {
 	Euid    int   `json:"euid"`
 	GBefore int   `json:"goroutines_before"`
 	GAfter  int   `json:"goroutines_after"`
+	NumCPU  int   `json:"numcpu"`
+	Procs   int   `json:"gomaxprocs"`
 }
 
 type outcome struct {
@@ -85,7 +91,15 @@ func runChild(c fc.Case, deadline time.Duration) outcome {
 	var so, se bytes.Buffer
 	cmd.Stdout, cmd.Stderr = &so, &se
 	cmd.Env = append(os.Environ(), "GOTRACEBACK=all")
-	if err := cmd.Start(); err != nil {
+	if c.Procs > 0 {
+		cmd.Env = append(cmd.Env, fmt.Sprintf("GOMAXPROCS=%d", c.Procs))
+	}
+	if c.CPUs > 0 {
+		// a host / cpuset with c.CPUs processors: the child's runtime.NumCPU() is c.CPUs
+		if _, err := pin.Start(cmd, int(pinNext.Add(1)), c.CPUs); err != nil {
+			return outcome{Kind: outInconclusive, Detail: "start (pinned): " + err.Error()}
+		}
+	} else if err := cmd.Start(); err != nil {
 		return outcome{Kind: outInconclusive, Detail: "start: " + err.Error()}
 	}
 	done := make(chan error, 1)
